@@ -1,112 +1,991 @@
-import PyomaVerif.Lemmas.Poles
+import PyomaVerif.Lemmas.UncTable
+import PyomaVerif.Lemmas.EigFirstOrder
+import PyomaVerif.Props.C17Vec
+import PyomaVerif.Lemmas.FreeVib
 /-!
-# C17 — which cell of `Fn_cov` / `Xi_cov` receives which pole's variance
+# C17 (structure) — the tables `Fn_cov` / `Xi_cov`, the factor of `build_hank` fed into the capstone,
+the clipped last block, and `fxMap` = the pole map of `ac2mp`
 
-`Model/Unc.lean` has ONE `(jj, ii)` pass of the uncertainty loop of `ssi.SSI_poles` (`poleVar`); the
-theorems of `Props/C17*.lean` are about that pass.  The table — the loops `for ii in trange(1, ordmax+1,
-step)`, `for jj in range(len(lam_c))`, the pairing of `lam_d[jj]` with `r_eigvt[:, jj]`, `l_eigvt[:, jj]`,
-`lam_c[jj]`, with `OO` and `PnQ1`, `PnQ2_Q3` of the SAME order, and the cell `[jj, ii]` — is the model
-function `ssiPoles` (`Model/Poles.lean`, driver op `ssi_poles`, stream `ssi.SSI_poles[cov values]`).
-
-`C17_fncov_cell`: for `step = 1`, cell `(jj, ii)` of `Fn_cov` is `|poleVar …|` of the `jj`-th eigen-triple
-recorded in the pass of order `ii`, with the inverse `OO` recorded in that pass and `Jfx_l` of that pole;
-`Xi_cov` holds `|cov_fx[1, 0]|` of the same `Ufx`; rows `≥ len(lam_c)` and columns never visited are NaN.
+* `C17_table_cells` — closed form of the two nested write loops of `SSI_poles` (`covTables`): which cell
+  receives which pole's `|cov_fx[0,0]|`, `|cov_fx[1,0]|`; NaN elsewhere.
+* `C17_table_variance` — the capstone `C17_variance_is_sum_of_squares` for every cell of that table.
+* `C17_factor_column_is_vec`, `C17_fncov_of_build_hank` — the factor `covFactor`/`buildHankUnc` actually
+  builds, column `k` = `vec_c((H_k − H)·s)`, fed into the capstone.
+* `C17_blockEst_explicit`, `C17_block_columns`, `C17_block_mean_general`, `C17_block_mean_clipped`,
+  `C17_last_block_bias` — which columns enter which block, for every `nb`, `N`.
+* `C17_fxMap_is_ac2mp`, `C17_fxMap_fnOf_xiOf` — `fxMap` is the map `ac2mp` computes (`FreeVib.lamC`,
+  `fnR`, `xiR`; `Realise.fnOf`, `xiOf` on the records), damping in percent.
+* `C17_eig_first_order_exists`, `C17_first_order_ident_exists` — the first-order identification that
+  `FirstOrderIdent` assumed EXISTS for every direction, from value-level contracts and simplicity of the
+  eigenvalue; `C17_fncov_of_factor_exact`, `C17_fncov_of_build_hank_exact` — the composed statement with no
+  first-order object assumed.
+* non-vacuity: `ExTab` (table on order-2 data; `FirstOrderIdent` at order 2 for arbitrary directions),
+  `ExReal` (all hypotheses of the composed statement jointly, over `ℝ`/`ℂ`, factor built by `covFactor`),
+  `ExBlocks`.
 -/
-namespace PV.C17Table
-open PV PV.Poles
-attribute [local instance] PV.Poles.cpxOne
+namespace PV.C17
+open PV PV.Mat PV.Unc Finset
 
-/-- `Jfx_l` of pole `jj` of the record `e` (Lemma 5 as coded) -/
-def jfxOf (u : UncIn) (e : EigRec) (jj : Nat) : Mat Rat :=
-  Unc.jfx u.pi u.dt (e.absd.getD jj 0) (e.absc.getD jj 0) (e.lamc.getD jj 0).re (e.lamc.getD jj 0).im
-    (e.lamd.getD jj 0).re (e.lamd.getD jj 0).im
+/-! ## 1. The tables -/
 
-/-- `cov_fx[0, 0]` of the pass is the model's `poleVar` (by definition of `ufxAt`) -/
-theorem var00_ufxAt (u : UncIn) (ordmax ii : Nat) (OO : Mat Rat) (e : EigRec) (jj : Nat) :
-    Unc.var00 (ufxAt u ordmax ii OO e jj)
-      = Unc.poleVar Cpx.ofReal Cpx.re Cpx.im ii ordmax u.Q1 u.Q2 u.Q3 OO (e.lamd.getD jj 0)
-          (fun t => Cpx.conj (e.L.e t jj)) (colFn e.V jj) (jfxOf u e jj) := rfl
+section Table
+variable {R K : Type} [Field R] [Inhabited R] [Field K] [Inhabited K]
 
-/-- **C17_fncov_cell.**  `ssiPoles` with `calc_unc` (`inp.unc = some u`), `step = 1`, returns `T`.  Then
-    `Fn_cov`, `Xi_cov` exist, and for every order `1 ≤ ii ≤ ordmax`, with `e` the eigen-record of pass
-    `ii − 1` (the call `ac2mp(AA[ii], CC[ii], dt, calc_unc=True)`) and `OO` the inverse recorded in that
-    pass: for `jj < len(lam_c)`
-    `Fn_cov[jj, ii] = |poleVar(ii, ordmax, Q1, Q2, Q3, OO, lam_d[jj], conj l_eigvt[:, jj], r_eigvt[:, jj],
-    Jfx_l(jj))|`, `Xi_cov[jj, ii] = |cov_fx[1, 0]|` of the same pass; for `jj ≥ len(lam_c)` both are NaN;
-    column 0 is NaN. -/
-theorem C17_fncov_cell (inp : SsiIn) (u : UncIn) (hu : inp.unc = some u) (hstep : inp.step = 1)
-    (T : SsiTables) (hT : ssiPoles inp = .ok T) :
-    ∃ FC XC, T.fnCov = some FC ∧ T.xiCov = some XC
-      ∧ (∀ ii, 1 ≤ ii → ii ≤ inp.ordmax → ∀ jj,
-          (jj < (inp.recs.getD (ii - 1) EigRec.empty).lamc.length →
-            FC.e jj ii = some (qabs (Unc.poleVar Cpx.ofReal Cpx.re Cpx.im ii inp.ordmax u.Q1 u.Q2 u.Q3
-                (u.OO.getD (ii - 1) ⟨0, 0, fun _ _ => 0⟩)
-                ((inp.recs.getD (ii - 1) EigRec.empty).lamd.getD jj 0)
-                (fun t => Cpx.conj ((inp.recs.getD (ii - 1) EigRec.empty).L.e t jj))
-                (colFn (inp.recs.getD (ii - 1) EigRec.empty).V jj)
-                (jfxOf u (inp.recs.getD (ii - 1) EigRec.empty) jj)))
-            ∧ XC.e jj ii = some (qabs (var10 (ufxAt u inp.ordmax ii
-                (u.OO.getD (ii - 1) ⟨0, 0, fun _ _ => 0⟩) (inp.recs.getD (ii - 1) EigRec.empty) jj))))
-          ∧ ((inp.recs.getD (ii - 1) EigRec.empty).lamc.length ≤ jj →
-              FC.e jj ii = none ∧ XC.e jj ii = none))
-      ∧ ∀ jj, FC.e jj 0 = none ∧ XC.e jj 0 = none := by
-  obtain ⟨_, _, _, hsome, hpass, hoth⟩ := ssiPoles_spec inp T hT
-  have hF : T.fnCov.isSome = true := by rw [hsome.1, hu]; rfl
-  have hX : T.xiCov.isSome = true := by rw [hsome.2.1, hu]; rfl
-  obtain ⟨FC, hFC⟩ := Option.isSome_iff_exists.mp hF
-  obtain ⟨XC, hXC⟩ := Option.isSome_iff_exists.mp hX
-  refine ⟨FC, XC, hFC, hXC, ?_, ?_⟩
-  · intro ii h1 hii jj
-    have hord : 1 + (ii - 1) * inp.step = ii := by rw [hstep]; omega
-    obtain ⟨A, C, _, _, _, _, _, _, _, _, _, hcov⟩ := hpass (ii - 1) (by rw [hord]; exact hii)
-    obtain ⟨c1, c2⟩ := hcov u hu jj
-    rw [hord, hFC] at c1
-    rw [hord, hXC] at c2
-    have hl : (passOut inp (ii - 1) C).lamc.length
-        = (inp.recs.getD (ii - 1) EigRec.empty).lamc.length := rfl
-    rw [hl] at c1 c2
-    constructor
-    · intro hjj
-      rw [if_pos hjj] at c1 c2
-      exact ⟨by rw [← var00_ufxAt]; exact c1, c2⟩
-    · intro hjj
-      rw [if_neg (by omega)] at c1 c2
-      exact ⟨c1, c2⟩
-  · intro jj
-    obtain ⟨h0, _⟩ := hoth 0 (by intro k hk; omega)
-    obtain ⟨_, _, _, f0, x0⟩ := h0 jj
-    rw [hFC] at f0
-    rw [hXC] at x0
-    exact ⟨f0, x0⟩
+/-- the value the pole loop computes for pole `jj` at order `n`: `cov_fx[0, 0]` is the model pass
+    `poleVar` on the `jj`-th eigenvalue, the `jj`-th column of `r_eigvt`, the conjugated `jj`-th column of
+    `l_eigvt`, and `Jfx_l` of the `jj`-th `lam_c`, `lam_d`. -/
+theorem C17_covFx_is_poleVar (ι : R → K) (re im : K → R) (conj : K → K) (pi dt : R) (n ordmax : Nat)
+    (Q1 Q2 Q3 : Mat R) (rc : OrderRec R K) (jj : Nat) :
+    (covFx ι re im conj pi dt n (pnQ1 n ordmax Q1) (pnQ23 n ordmax Q2 Q3) rc jj).e 0 0
+      = poleVar ι re im n ordmax Q1 Q2 Q3 rc.oo (rc.lamd jj) (fun m => conj (rc.lv.e m jj))
+          (Unc.col rc.rv jj)
+          (jfx pi dt (rc.absd jj) (rc.absc jj) (re (rc.lamc jj)) (im (rc.lamc jj)) (re (rc.lamd jj))
+            (im (rc.lamd jj))) := rfl
 
-/-! ## Non-vacuity: one channel, `ordmax = 1`, one perturbation column -/
+/-- **Table assembly of `SSI_poles`.**  If at every order the pole loop stays inside the `ordmax` rows
+    (`len(lam_c) ≤ ordmax`; `ac2mp` returns `ii` poles at order `ii`), the run of the two loops
+    (`covTables`) terminates without `IndexError` and cell `[jj, ii]` of `Fn_cov` (resp. `Xi_cov`) is
+    `abs(cov_fx[0, 0])` (resp. `abs(cov_fx[1, 0])`) of pole `jj` of order `ii` — computed with
+    `PnQ1`, `PnQ2_Q3`, `OO` of THAT order and the `jj`-th eigen-triple of THAT order — for
+    `1 ≤ ii ≤ ordmax`, `jj < len(lam_c)`, and NaN in every other cell (column 0, rows `≥ len(lam_c)`). -/
+theorem C17_table_cells (ι : R → K) (re im : K → R) (conj : K → K) (absR : R → R) (pi dt : R)
+    (ordmax : Nat) (Q1 Q2 Q3 : Mat R) (recs : Nat → OrderRec R K)
+    (hnp : ∀ ii, 1 ≤ ii → ii ≤ ordmax → (recs ii).np ≤ ordmax) :
+    ∃ t, covTables ι re im conj absR pi dt ordmax Q1 Q2 Q3 recs = some t ∧
+      (∀ jj ii, t.fn jj ii =
+        if 1 ≤ ii ∧ ii ≤ ordmax ∧ jj < (recs ii).np then
+          some (absR (poleVar ι re im ii ordmax Q1 Q2 Q3 (recs ii).oo ((recs ii).lamd jj)
+            (fun m => conj ((recs ii).lv.e m jj)) (Unc.col (recs ii).rv jj)
+            (jfx pi dt ((recs ii).absd jj) ((recs ii).absc jj) (re ((recs ii).lamc jj))
+              (im ((recs ii).lamc jj)) (re ((recs ii).lamd jj)) (im ((recs ii).lamd jj)))))
+        else none) ∧
+      (∀ jj ii, t.xi jj ii =
+        if 1 ≤ ii ∧ ii ≤ ordmax ∧ jj < (recs ii).np then
+          some (absR ((covFx ι re im conj pi dt ii (pnQ1 ii ordmax Q1) (pnQ23 ii ordmax Q2 Q3)
+            (recs ii) jj).e 1 0))
+        else none) := by
+  have hstep : ∀ ii ∈ List.range' 1 ordmax, ∀ t : CovTabs R, ∃ t',
+      orderPass ι re im conj absR pi dt ordmax Q1 Q2 Q3 (recs ii) ii t = some t' ∧
+      (∀ a b, t'.fn a b = if b = ii ∧ a < (recs ii).np then
+        some (absR ((covFx ι re im conj pi dt ii (pnQ1 ii ordmax Q1) (pnQ23 ii ordmax Q2 Q3)
+          (recs ii) a).e 0 0)) else t.fn a b) ∧
+      (∀ a b, t'.xi a b = if b = ii ∧ a < (recs ii).np then
+        some (absR ((covFx ι re im conj pi dt ii (pnQ1 ii ordmax Q1) (pnQ23 ii ordmax Q2 Q3)
+          (recs ii) a).e 1 0)) else t.xi a b) := by
+    intro ii hii t
+    rw [List.mem_range'_1] at hii
+    have hle : (recs ii).np ≤ ordmax := hnp ii hii.1 (by omega)
+    obtain ⟨t', h1, h2, h3⟩ := foldlM_write ordmax ii
+      (fun a => absR ((covFx ι re im conj pi dt ii (pnQ1 ii ordmax Q1) (pnQ23 ii ordmax Q2 Q3)
+        (recs ii) a).e 0 0))
+      (fun a => absR ((covFx ι re im conj pi dt ii (pnQ1 ii ordmax Q1) (pnQ23 ii ordmax Q2 Q3)
+        (recs ii) a).e 1 0))
+      (List.range (recs ii).np) (fun a ha => lt_of_lt_of_le (List.mem_range.mp ha) hle) t
+    refine ⟨t', h1, ?_, ?_⟩
+    · intro a b; rw [h2 a b]; simp only [List.mem_range]
+    · intro a b; rw [h3 a b]; simp only [List.mem_range]
+  obtain ⟨t', h1, h2, h3⟩ := foldlM_orders (List.range' 1 ordmax)
+    (fun ii t => orderPass ι re im conj absR pi dt ordmax Q1 Q2 Q3 (recs ii) ii t)
+    (fun ii a => absR ((covFx ι re im conj pi dt ii (pnQ1 ii ordmax Q1) (pnQ23 ii ordmax Q2 Q3)
+        (recs ii) a).e 0 0))
+    (fun ii a => absR ((covFx ι re im conj pi dt ii (pnQ1 ii ordmax Q1) (pnQ23 ii ordmax Q2 Q3)
+        (recs ii) a).e 1 0))
+    (fun ii => (recs ii).np) hstep ⟨fun _ _ => none, fun _ _ => none⟩
+  refine ⟨t', h1, ?_, ?_⟩
+  · intro jj ii
+    rw [h2 jj ii]
+    by_cases hc : 1 ≤ ii ∧ ii ≤ ordmax ∧ jj < (recs ii).np
+    · rw [if_pos hc, if_pos ⟨List.mem_range'_1.mpr ⟨hc.1, by omega⟩, hc.2.2⟩]
+      rfl
+    · rw [if_neg hc, if_neg]
+      intro h
+      have := List.mem_range'_1.mp h.1
+      exact hc ⟨this.1, by omega, h.2⟩
+  · intro jj ii
+    rw [h3 jj ii]
+    by_cases hc : 1 ≤ ii ∧ ii ≤ ordmax ∧ jj < (recs ii).np
+    · rw [if_pos hc, if_pos ⟨List.mem_range'_1.mpr ⟨hc.1, by omega⟩, hc.2.2⟩]
+    · rw [if_neg hc, if_neg]
+      intro h
+      have := List.mem_range'_1.mp h.1
+      exact hc ⟨this.1, by omega, h.2⟩
 
-def exRec : EigRec := ⟨[⟨1/2, 0⟩], ⟨1, 1, fun _ _ => ⟨1, 0⟩⟩, ⟨1, 1, fun _ _ => ⟨2, 0⟩⟩, [⟨-7, 0⟩], [7], [1/2]⟩
-def exUnc : UncIn := ⟨⟨1, 1, fun _ _ => 3⟩, ⟨1, 1, fun _ _ => 5⟩, ⟨1, 1, fun _ _ => -1⟩, [⟨1, 1, fun _ _ => 1/4⟩], 3, 1/10⟩
-def exInp : SsiIn :=
-  ⟨[⟨0, 0, fun _ _ => 0⟩, ⟨1, 1, fun _ _ => 1/2⟩], [⟨1, 0, fun _ _ => 0⟩, ⟨1, 1, fun _ _ => 2⟩], 1, 1, [exRec], 6,
-    some exUnc⟩
+/-- the loop raises (`IndexError`) as soon as some order reports more poles than the tables have
+    rows: if the FIRST order does (`len(lam_c) > ordmax` at `ii = 1`), `covTables` is `none`. -/
+theorem C17_table_index_error (ι : R → K) (re im : K → R) (conj : K → K) (absR : R → R) (pi dt : R)
+    (ordmax : Nat) (Q1 Q2 Q3 : Mat R) (recs : Nat → OrderRec R K) (h1 : 1 ≤ ordmax)
+    (hbig : ordmax < (recs 1).np) :
+    covTables ι re im conj absR pi dt ordmax Q1 Q2 Q3 recs = none := by
+  obtain ⟨m, rfl⟩ : ∃ m, ordmax = m + 1 := ⟨ordmax - 1, by omega⟩
+  unfold covTables
+  rw [List.range'_succ, List.foldlM_cons]
+  have hpass : ∀ t, orderPass ι re im conj absR pi dt (m + 1) Q1 Q2 Q3 (recs 1) 1 t = none := by
+    intro t
+    unfold orderPass
+    obtain ⟨d, hd⟩ : ∃ d, (recs 1).np = (m + 1) + 1 + d := ⟨(recs 1).np - (m + 2), by omega⟩
+    rw [hd, show m + 1 + 1 + d = (m + 1) + (1 + d) by ring, List.range_add, List.foldlM_append]
+    obtain ⟨t', h1', -, -⟩ := foldlM_write (m + 1) 1
+      (fun a => absR ((covFx ι re im conj pi dt 1 (pnQ1 1 (m + 1) Q1) (pnQ23 1 (m + 1) Q2 Q3)
+        (recs 1) a).e 0 0))
+      (fun a => absR ((covFx ι re im conj pi dt 1 (pnQ1 1 (m + 1) Q1) (pnQ23 1 (m + 1) Q2 Q3)
+        (recs 1) a).e 1 0))
+      (List.range (m + 1)) (fun a ha => List.mem_range.mp ha) t
+    simp only at h1' ⊢
+    rw [h1']
+    show List.foldlM _ t' (List.map _ (List.range (1 + d))) = none
+    rw [show 1 + d = d + 1 by ring, List.range_succ_eq_map, List.map_cons, List.foldlM_cons]
+    simp
+  rw [hpass]
+  rfl
 
-theorem ex_ok : ∃ T, ssiPoles exInp = .ok T := by
-  refine ssiPoles_ok exInp rfl (by decide) (by decide) ?_ ?_
-  · intro ii h
-    have h' : ii < 2 := h
-    obtain rfl | rfl : ii = 0 ∨ ii = 1 := by omega
-    all_goals rfl
-  · intro k hk
-    have h' : k < 1 := hk
-    obtain rfl : k = 0 := by omega
-    decide
+end Table
 
-/-- all hypotheses of `C17_fncov_cell` hold jointly; the cell `(0, 1)` of `Fn_cov` is `|poleVar|` of the
-    one recorded eigen-triple and does not vanish -/
-theorem ex_cell : ∃ T FC, ssiPoles exInp = .ok T ∧ T.fnCov = some FC ∧ FC.e 0 1 ≠ some 0
-    ∧ FC.e 0 1 ≠ none := by
-  obtain ⟨T, hT⟩ := ex_ok
-  obtain ⟨FC, XC, hF, _, hcell, _⟩ := C17_fncov_cell exInp exUnc rfl rfl T hT
-  obtain ⟨h1, _⟩ := (hcell 1 (by decide) (by decide) 0).1 (by decide)
-  refine ⟨T, FC, hT, hF, ?_, ?_⟩
-  · rw [h1]; decide +kernel
-  · rw [h1]; simp
+/-! ## 2. Every cell of the table is a sum of squared directional derivatives -/
 
-end PV.C17Table
+/-- `Jfx_l` built from exact records (`np.pi`, `np.abs`, `np.log`) is `jfxAt` at `(Re, Im) lam_d[jj]`. -/
+theorem jfx_of_exact_records (dt : ℝ) (lamd lamc : ℂ) (absd absc : ℝ)
+    (hlc : lamc = lamC dt ![lamd.re, lamd.im]) (habsd : absd = ‖lamd‖) (habsc : absc = ‖lamc‖) :
+    jfx Real.pi dt absd absc lamc.re lamc.im lamd.re lamd.im = jfxAt dt ![lamd.re, lamd.im] := by
+  unfold jfxAt
+  simp only [Matrix.cons_val_zero, Matrix.cons_val_one]
+  rw [Complex.re_add_im, ← hlc, habsd, habsc]
+
+/-- **`Fn_cov[jj, ii] = Σ_k (D_k fn)²` for every cell the loops write.**  `t` is the result of the model of
+    the two loops of `SSI_poles` (`covTables`, with `np.conj`, `np.abs`, exact `np.pi`) on the model's
+    `Q1..Q3` of `SSI_fast`; `recs ii` the per-order records.  For a cell `1 ≤ ii ≤ ordmax`,
+    `jj < len(lam_c)`: if the records of that pole are exact (`lam_c = log(lam_d)/dt`, `np.abs`) and for
+    every factor column `k` there is a first-order identification (`FirstOrderIdent`) at ORDER `ii`
+    extending the recorded factors with the `jj`-th eigen-triple of that order, then the stored value
+    is the sum over the factor columns of the squared derivative of `fn` along the first-order
+    eigenvalue perturbation.  Hypotheses beyond `C17_variance_is_sum_of_squares`: none (the loop bound
+    `len(lam_c) ≤ ordmax` holds for `ac2mp`, which returns `ii` poles). -/
+theorem C17_table_variance (dt : ℝ) (H T U V : Mat ℝ) (dH : Nat → Mat ℝ) (l r p ordmax : Nat)
+    (sq sig rs : Nat → ℝ) (Ki : Nat → Mat ℝ) (recs : Nat → OrderRec ℝ ℂ) (t : CovTabs ℝ)
+    (hnp : ∀ ii, 1 ≤ ii → ii ≤ ordmax → (recs ii).np ≤ ordmax)
+    (ii jj : Nat) (h1 : 1 ≤ ii) (h2 : ii ≤ ordmax) (hj : jj < (recs ii).np)
+    (hlc : (recs ii).lamc jj = lamC dt ![((recs ii).lamd jj).re, ((recs ii).lamd jj).im])
+    (habsd : (recs ii).absd jj = ‖(recs ii).lamd jj‖)
+    (habsc : (recs ii).absc jj = ‖(recs ii).lamc jj‖)
+    (lam : Nat → DualNumber ℂ)
+    (hid : ∀ k, k < T.c → FirstOrderIdent Complex.ofRealHom H (dH k) T U V l r p ordmax ii sq sig rs Ki
+      (recs ii).oo (Unc.col (recs ii).rv jj) (fun m => (starRingEnd ℂ) ((recs ii).lv.e m jj)) k (lam k))
+    (hl0 : ∀ k, k < T.c → (lam k).fst = (recs ii).lamd jj)
+    (hs : (recs ii).lamd jj ∈ Complex.slitPlane)
+    (hμ : lamC dt ![((recs ii).lamd jj).re, ((recs ii).lamd jj).im] ≠ 0) :
+    let Obs := obsOf U sq ordmax
+    let Q := q1234 H T (upPart Obs l) (dnPart Obs l) l r p ordmax U V sig rs Ki
+    covTables Complex.ofRealHom Complex.re Complex.im (starRingEnd ℂ) (fun x : ℝ => |x|) Real.pi dt
+        ordmax Q.1 Q.2.1 Q.2.2.1 recs = some t →
+    t.fn jj ii = some (∑ k ∈ range T.c,
+      (fderiv ℝ (fxMap dt) ![((recs ii).lamd jj).re, ((recs ii).lamd jj).im]
+        ![(lam k).snd.re, (lam k).snd.im] 0) ^ 2) := by
+  intro Obs Q ht
+  obtain ⟨t', e, hfn, -⟩ := C17_table_cells (⇑Complex.ofRealHom) Complex.re Complex.im (starRingEnd ℂ)
+    (fun x : ℝ => |x|) Real.pi dt ordmax Q.1 Q.2.1 Q.2.2.1 recs hnp
+  rw [ht] at e
+  obtain rfl : t = t' := Option.some.inj e
+  rw [hfn jj ii, if_pos ⟨h1, h2, hj⟩,
+    jfx_of_exact_records dt _ _ _ _ hlc habsd habsc]
+  congr 1
+  exact (C17_variance_is_sum_of_squares dt H T U V dH l r p ordmax ii sq sig rs Ki (recs ii).oo
+    (Unc.col (recs ii).rv jj) (fun m => (starRingEnd ℂ) ((recs ii).lv.e m jj)) ((recs ii).lamd jj) lam
+    hid hl0 hs hμ).2
+
+/-! ## 3. The factor `build_hank` actually builds, fed into the capstone -/
+
+/-- **Column `k` of the factor is `vec_c` of the scaled deviation matrix** `(H_k − H)·s` (`devMat`), for
+    every row index: the hypothesis `hcol` of `FirstOrderIdent` holds for the model's `covFactor` with
+    `ΔH_k = devMat … k`. -/
+theorem C17_factor_column_is_vec {K : Type} [Field K] (Yf Yp : Mat K) (nb N : Nat) (s : K) (T : Mat K)
+    (h : covFactor Yf Yp nb N s = .ok T) (k m : Nat) :
+    T.e m k = vecC (devMat Yf Yp N nb s k) m := by
+  unfold covFactor at h
+  split_ifs at h
+  cases h
+  rfl
+
+/-- **`Fn_cov` for the factor of `build_hank`: variance = Σ_k (D fn · ε_k λ)²,
+    `ε_k` the first-order change along `ΔH_k = (H_k − H)·s`.**  `T` is the factor the model `covFactor`
+    returns for the stacked data `Yf`, `Yp` (`nb` blocks, `s = 1/sqrt(nb(nb−1))` as computed), `H = Yf·Ypᵀ`
+    the full estimate; `Q1..Q3` the model of `SSI_fast` on `(H, T)`, `t` the tables of the model of
+    `SSI_poles`.  For a written cell `(jj, ii)`: if for every block `k < nb` there is a first-order
+    identification of `H + ε·(H_k − H)·s` at order `ii` extending the recorded factors
+    (`FirstOrderCore`: no statement about `T` is assumed — `T[:, k] = vec_c(ΔH_k)` is proved,
+    `C17_factor_column_is_vec`) with eigenvalue `lam_d[jj] + ε·ε_k(λ)`, then
+    `Fn_cov[jj, ii] = Σ_{k<nb} (D fn(Re ε_k λ, Im ε_k λ))²`. -/
+theorem C17_fncov_of_factor (dt : ℝ) (Yf Yp : Mat ℝ) (nb N : Nat) (s : ℝ) (T U V : Mat ℝ)
+    (hT : covFactor Yf Yp nb N s = .ok T) (l r p ordmax : Nat)
+    (sq sig rs : Nat → ℝ) (Ki : Nat → Mat ℝ) (recs : Nat → OrderRec ℝ ℂ) (t : CovTabs ℝ)
+    (hnp : ∀ ii, 1 ≤ ii → ii ≤ ordmax → (recs ii).np ≤ ordmax)
+    (ii jj : Nat) (h1 : 1 ≤ ii) (h2 : ii ≤ ordmax) (hj : jj < (recs ii).np)
+    (hlc : (recs ii).lamc jj = lamC dt ![((recs ii).lamd jj).re, ((recs ii).lamd jj).im])
+    (habsd : (recs ii).absd jj = ‖(recs ii).lamd jj‖)
+    (habsc : (recs ii).absc jj = ‖(recs ii).lamc jj‖)
+    (lam : Nat → DualNumber ℂ)
+    (hid : ∀ k, k < nb → FirstOrderCore Complex.ofRealHom (mulT Yf Yp) (devMat Yf Yp N nb s k) U V l r p
+      ordmax ii sq sig rs Ki (recs ii).oo (Unc.col (recs ii).rv jj)
+      (fun m => (starRingEnd ℂ) ((recs ii).lv.e m jj)) (lam k))
+    (hl0 : ∀ k, k < nb → (lam k).fst = (recs ii).lamd jj)
+    (hs : (recs ii).lamd jj ∈ Complex.slitPlane)
+    (hμ : lamC dt ![((recs ii).lamd jj).re, ((recs ii).lamd jj).im] ≠ 0) :
+    let Obs := obsOf U sq ordmax
+    let Q := q1234 (mulT Yf Yp) T (upPart Obs l) (dnPart Obs l) l r p ordmax U V sig rs Ki
+    covTables Complex.ofRealHom Complex.re Complex.im (starRingEnd ℂ) (fun x : ℝ => |x|) Real.pi dt
+        ordmax Q.1 Q.2.1 Q.2.2.1 recs = some t →
+    t.fn jj ii = some (∑ k ∈ range nb,
+      (fderiv ℝ (fxMap dt) ![((recs ii).lamd jj).re, ((recs ii).lamd jj).im]
+        ![(lam k).snd.re, (lam k).snd.im] 0) ^ 2) := by
+  intro Obs Q ht
+  have hc : T.c = nb := (C17_factor_shape Yf Yp nb N s T hT).2
+  have := C17_table_variance dt (mulT Yf Yp) T U V (fun k => devMat Yf Yp N nb s k) l r p ordmax sq sig rs
+    Ki recs t hnp ii jj h1 h2 hj hlc habsd habsc lam
+    (fun k hk => (hid k (hc ▸ hk)).toIdent T k hk
+      (fun m _ => C17_factor_column_is_vec Yf Yp nb N s T hT k m))
+    (fun k hk => hl0 k (hc ▸ hk)) hs hμ ht
+  rw [this, hc]
+
+/-- **The same through `build_hank`.**  `(H, T) = build_hank(Y, Yref, br = p, "cov_mm", calc_unc=True, nb)`
+    as the model `buildHankUnc` computes them (`l = Y.shape[0]` channels, `r = Yref.shape[0] ≥ 1`
+    references): the shape contracts of the capstone hold by construction
+    (`H`, `ΔH_k` are `(p+1)l × (p+1)r`), what remains is: `Uom` has `(p+1)l` rows, the recorded `OO` is the
+    exact inverse, and for every block a first-order identification exists (`IdentExists`). -/
+theorem C17_fncov_of_build_hank (dt : ℝ) (Y Yref : Mat ℝ) (p nb : Nat) (s0 s : ℝ) (H T U V : Mat ℝ)
+    (hB : buildHankUnc Y Yref p nb s0 s = (H, .ok T)) (hr0 : 0 < Yref.r) (ordmax : Nat)
+    (sq sig rs : Nat → ℝ) (Ki : Nat → Mat ℝ) (recs : Nat → OrderRec ℝ ℂ) (t : CovTabs ℝ)
+    (hnp : ∀ ii, 1 ≤ ii → ii ≤ ordmax → (recs ii).np ≤ ordmax)
+    (ii jj : Nat) (h1 : 1 ≤ ii) (h2 : ii ≤ ordmax) (hj : jj < (recs ii).np)
+    (hlc : (recs ii).lamc jj = lamC dt ![((recs ii).lamd jj).re, ((recs ii).lamd jj).im])
+    (habsd : (recs ii).absd jj = ‖(recs ii).lamd jj‖)
+    (habsc : (recs ii).absc jj = ‖(recs ii).lamc jj‖)
+    (hUr : U.r = (p + 1) * Y.r) (hOc : (recs ii).oo.c = ii)
+    (hOO : toMx ii ii (recs ii).oo.e * toMx ii ii (ooArg (obsOf U sq ordmax) Y.r ii).e = 1)
+    (lam : Nat → DualNumber ℂ)
+    (hex : ∀ k, k < nb → IdentExists Complex.ofRealHom H
+      (devMat (hankYf Y p s0) (hankYp Y.c Yref p s0) (Y.c - p - (p + 1)) nb s k) U V Y.r p ii sq sig rs Ki
+      (Unc.col (recs ii).rv jj) (fun m => (starRingEnd ℂ) ((recs ii).lv.e m jj)) (lam k))
+    (hl0 : ∀ k, k < nb → (lam k).fst = (recs ii).lamd jj)
+    (hs : (recs ii).lamd jj ∈ Complex.slitPlane)
+    (hμ : lamC dt ![((recs ii).lamd jj).re, ((recs ii).lamd jj).im] ≠ 0) :
+    let Obs := obsOf U sq ordmax
+    let Q := q1234 H T (upPart Obs Y.r) (dnPart Obs Y.r) Y.r Yref.r p ordmax U V sig rs Ki
+    covTables Complex.ofRealHom Complex.re Complex.im (starRingEnd ℂ) (fun x : ℝ => |x|) Real.pi dt
+        ordmax Q.1 Q.2.1 Q.2.2.1 recs = some t →
+    t.fn jj ii = some (∑ k ∈ range nb,
+      (fderiv ℝ (fxMap dt) ![((recs ii).lamd jj).re, ((recs ii).lamd jj).im]
+        ![(lam k).snd.re, (lam k).snd.im] 0) ^ 2) := by
+  unfold buildHankUnc at hB
+  obtain ⟨rfl, hT⟩ := Prod.mk.inj hB
+  exact C17_fncov_of_factor dt (hankYf Y p s0) (hankYp Y.c Yref p s0) nb (Y.c - p - (p + 1)) s T U V hT
+    Y.r Yref.r p ordmax sq sig rs Ki recs t hnp ii jj h1 h2 hj hlc habsd habsc lam
+    (fun k hk => ⟨rfl, rfl, rfl, rfl, Nat.mul_pos (Nat.succ_pos p) hr0, two_ne_zero, h2, hUr, hOc, hOO,
+      hex k hk⟩) hl0 hs hμ
+
+/-! ## 4. Which columns enter which block (every `nb`, `N`; the clipped last block) -/
+
+/-- **The block estimate, for every `k`, `Nb` and every number of columns (no `hfit`).**  `blockEst`
+    (the slices `Yf[:, k*Nb:(k+1)*Nb]`, `Yp[:, …]` as numpy clips them, `np.dot`, `* N / Nb`) is the explicit
+    sum `blockEstR` over the columns `start ≤ t < stop` that `blockCols` names, times `N`, divided by
+    `Nb` — also when the slice holds fewer than `Nb` columns. -/
+theorem C17_blockEst_explicit {K : Type} [Field K] (Yf Yp : Mat K) (N Nb k i j : Nat) :
+    (blockEst Yf Yp N Nb k).r = (blockEstR Yf Yp N Nb k).r ∧
+    (blockEst Yf Yp N Nb k).c = (blockEstR Yf Yp N Nb k).c ∧
+    (blockEst Yf Yp N Nb k).e i j = (blockEstR Yf Yp N Nb k).e i j ∧
+    (blockEstR Yf Yp N Nb k).e i j
+      = (∑ t ∈ range ((blockCols Yf.c Nb k).2 - (blockCols Yf.c Nb k).1),
+          Yf.e i ((blockCols Yf.c Nb k).1 + t) * Yp.e j ((blockCols Yf.c Nb k).1 + t))
+        * (N : K) / (Nb : K) := by
+  refine ⟨rfl, rfl, ?_, ?_⟩
+  · simp only [blockEst, blockEstR, blockCols, mulT, colSliceT, sumTo_eq]
+    by_cases h : k * Nb ≤ Yf.c
+    · rw [Nat.min_eq_left h]
+    · have h' : Yf.c < k * Nb := Nat.lt_of_not_le h
+      have hle : k * Nb ≤ (k + 1) * Nb := Nat.mul_le_mul_right _ (Nat.le_succ k)
+      have e1 : min ((k + 1) * Nb) Yf.c - k * Nb = 0 := by omega
+      have e2 : min ((k + 1) * Nb) Yf.c - min (k * Nb) Yf.c = 0 := by omega
+      rw [e1, e2]
+      simp
+  · simp only [blockEstR, sumTo_eq]
+
+/-- **Which columns enter which block** (`ncols = N − 1` columns of `Yf`, `Yp`; `Nb = N // nb ≥ 1`).
+    * `nb ∤ N`: every block `k < nb` is full — columns `k·Nb ≤ t < (k+1)·Nb` — and the
+      `N mod nb − 1` columns `nb·Nb ≤ t < N − 1` enter NO block (they enter `Hank` only).
+    * `nb ∣ N`: blocks `k < nb − 1` are full, the LAST block holds the `Nb − 1` columns
+      `(nb−1)·Nb ≤ t < N − 1` (the slice is clipped; the estimate is still divided by `Nb`,
+      `C17_last_block_bias`), and no column is left over. -/
+theorem C17_block_columns (N nb : Nat) (hnb : 1 ≤ nb) (hNb : 1 ≤ N / nb) :
+    (¬ nb ∣ N →
+      (∀ k, k < nb → blockCols (N - 1) (N / nb) k = (k * (N / nb), (k + 1) * (N / nb))) ∧
+      leftoverCols (N - 1) (N / nb) nb = (nb * (N / nb), N - 1) ∧
+      (N - 1) - nb * (N / nb) = N % nb - 1 ∧ 1 ≤ N % nb) ∧
+    (nb ∣ N →
+      (∀ k, k + 1 < nb → blockCols (N - 1) (N / nb) k = (k * (N / nb), (k + 1) * (N / nb))) ∧
+      blockCols (N - 1) (N / nb) (nb - 1) = ((nb - 1) * (N / nb), N - 1) ∧
+      (N - 1) - (nb - 1) * (N / nb) = N / nb - 1 ∧
+      leftoverCols (N - 1) (N / nb) nb = (N - 1, N - 1)) := by
+  have hdm : nb * (N / nb) + N % nb = N := Nat.div_add_mod N nb
+  have hlt : N % nb < nb := Nat.mod_lt _ (by omega)
+  generalize hq : N / nb = q at *
+  generalize hm : N % nb = m at *
+  have hfull : ∀ k, k + 1 ≤ nb → (k + 1) * q ≤ nb * q := fun k hk => Nat.mul_le_mul_right _ hk
+  have hmono : ∀ k, k * q ≤ (k + 1) * q := fun k => Nat.mul_le_mul_right _ (Nat.le_succ k)
+  constructor
+  · intro hdiv
+    have hm1 : 1 ≤ m := by
+      rcases Nat.eq_zero_or_pos m with h0 | h0
+      · exact absurd (Nat.dvd_of_mod_eq_zero (hm ▸ h0)) hdiv
+      · exact h0
+    refine ⟨fun k hk => ?_, ?_, by omega, hm1⟩
+    · have := hfull k hk
+      have := hmono k
+      simp only [blockCols]
+      rw [Nat.min_eq_left (by omega), Nat.min_eq_left (by omega)]
+    · simp only [leftoverCols]
+      rw [Nat.min_eq_left (by omega)]
+  · intro hdiv
+    have hm0 : m = 0 := by rw [← hm]; exact Nat.mod_eq_zero_of_dvd hdiv
+    subst hm0
+    obtain ⟨nb', rfl⟩ : ∃ nb', nb = nb' + 1 := ⟨nb - 1, by omega⟩
+    have hexp : (nb' + 1) * q = nb' * q + q := Nat.succ_mul _ _
+    refine ⟨fun k hk => ?_, ?_, ?_, ?_⟩
+    · have h2 := hmono k
+      have h3 : (k + 1) * q ≤ nb' * q := Nat.mul_le_mul_right _ (by omega)
+      simp only [blockCols]
+      rw [Nat.min_eq_left (by omega), Nat.min_eq_left (by omega)]
+    · simp only [blockCols, Nat.add_sub_cancel]
+      rw [Nat.min_eq_left (by omega), Nat.min_eq_right (by omega)]
+    · simp only [Nat.add_sub_cancel]; omega
+    · simp only [leftoverCols]
+      rw [Nat.min_eq_right (by omega)]
+
+/-- **Sum of the block estimates, in general**: the products of the first `min(nb·Nb, ncols)` columns,
+    times `N/Nb` (`C17_block_mean` is the case `nb·Nb = ncols`). -/
+theorem C17_block_mean_general {K : Type} [Field K] (Yf Yp : Mat K) (N Nb nb i j : Nat) :
+    ∑ k ∈ range nb, (blockEst Yf Yp N Nb k).e i j
+      = (∑ t ∈ range (min (nb * Nb) Yf.c), Yf.e i t * Yp.e j t) * (N : K) / (Nb : K) := by
+  have hk : ∀ k, (blockEst Yf Yp N Nb k).e i j
+      = (∑ t ∈ range (min ((k + 1) * Nb) Yf.c - k * Nb), Yf.e i (k * Nb + t) * Yp.e j (k * Nb + t))
+        * (N : K) / (Nb : K) := by
+    intro k
+    simp only [blockEst, mulT, colSliceT, sumTo_eq]
+  simp only [hk, div_eq_mul_inv]
+  rw [← Finset.sum_mul, ← Finset.sum_mul,
+    sum_blocks_clip (fun m => Yf.e i m * Yp.e j m) nb Nb Yf.c]
+
+/-- **`nb ∣ N` (clipped last block): the block estimates average to the full estimate exactly**:
+    with the `N − 1` columns of `cov_mm` and `N = nb·Nb`, `Σ_k H_k = nb·H` — so in
+    `C17_factor_gram_centered` the rank-one term vanishes (`hbar = h`) and `T·Tᵀ` is exactly the sample
+    covariance of the mean of the block estimates AS COMPUTED (the last of them biased, next theorem). -/
+theorem C17_block_mean_clipped {K : Type} [Field K] (Yf Yp : Mat K) (N nb i j : Nat)
+    (hc : Yf.c = N - 1) (hdiv : nb ∣ N) (hNb : ((N / nb : Nat) : K) ≠ 0) :
+    ∑ k ∈ range nb, (blockEst Yf Yp N (N / nb) k).e i j = (nb : K) * (mulT Yf Yp).e i j := by
+  rw [C17_block_mean_general, Nat.mul_div_cancel' hdiv, hc, Nat.min_eq_right (Nat.sub_le N 1)]
+  have hN : (N : K) = (nb : K) * ((N / nb : Nat) : K) := by
+    rw [← Nat.cast_mul, Nat.mul_div_cancel' hdiv]
+  simp only [mulT, sumTo_eq, hc]
+  rw [hN]
+  field_simp
+
+/-- **The clipped last block is biased by `(Nb−1)/Nb`.**  For `nb ∣ N` (and the `N − 1` columns of
+    `cov_mm`) the last block estimate is the sum of its `Nb − 1` column products times `N`, divided by
+    `Nb` — i.e. `(Nb − 1)/Nb` times the moment estimate over the columns it holds.  (The property's
+    "block-wise Hankel estimates" is therefore not met by that block; the oracle skips `nb ∣ N`.) -/
+theorem C17_last_block_bias {K : Type} [Field K] (Yf Yp : Mat K) (N nb i j : Nat)
+    (hc : Yf.c = N - 1) (hnb : 1 ≤ nb) (hNb : 1 ≤ N / nb) (hdiv : nb ∣ N) :
+    (blockEst Yf Yp N (N / nb) (nb - 1)).e i j
+      = (∑ t ∈ range (N / nb - 1),
+          Yf.e i ((nb - 1) * (N / nb) + t) * Yp.e j ((nb - 1) * (N / nb) + t)) * (N : K)
+        / ((N / nb : Nat) : K) := by
+  obtain ⟨-, h2, h3, -⟩ := (C17_block_columns N nb hnb hNb).2 hdiv
+  obtain ⟨-, -, e1, e2⟩ := C17_blockEst_explicit Yf Yp N (N / nb) (nb - 1) i j
+  rw [e1, e2, hc, h2]
+  simp only [h3]
+
+/-! ## 5. `fxMap` is the pole map of `ac2mp` -/
+
+/-- **`fxMap` (the map whose Jacobian is `Jfx_l`, `C17_fx_jacobian`) is the map `ac2mp` computes**, in the
+    form C01 proves correct (`FreeVib.lamC`, `fnR`, `xiR`: `lam_c = log(lam_d)/dt`, `fn = |lam_c|/2π`,
+    `xi = −Re lam_c/|lam_c|`, `C01E2E.Recovered`), with the damping in percent:
+    `fxMap dt (Re λ, Im λ) = (fn(λ), 100·xi(λ))`. -/
+theorem C17_fxMap_is_ac2mp (dt : ℝ) (q : Fin 2 → ℝ) :
+    fxMap dt q = ![FreeVib.fnR (FreeVib.lamC ((q 0 : ℂ) + (q 1 : ℂ) * Complex.I) dt),
+      100 * FreeVib.xiR (FreeVib.lamC ((q 0 : ℂ) + (q 1 : ℂ) * Complex.I) dt)] ∧
+    Unc.lamC dt q = FreeVib.lamC ((q 0 : ℂ) + (q 1 : ℂ) * Complex.I) dt :=
+  ⟨rfl, rfl⟩
+
+theorem ratio_diff (a A t T : ℝ) (ht : t ≠ 0) (hT : T ≠ 0) :
+    a / t - A / T = ((a - A) + (A / T) * (T - t)) / t := by
+  field_simp
+  ring
+
+/-- **… and of the executed model functions `Realise.fnOf`, `Realise.xiOf`** (what the driver runs for C01
+    on the RECORDED rationals `absl ≈ |lam_c|`, `twoPi ≈ 2π`, `lamc ≈ lam_c`): they are the two
+    components of `fxMap` (the second divided by 100) up to the rounding of the records — exactly
+    equal when the records are exact. -/
+theorem C17_fxMap_fnOf_xiOf (dt : ℝ) (q : Fin 2 → ℝ) (lamc : Cpx ℚ) (absl twoPi : ℚ)
+    (hμ : Unc.lamC dt q ≠ 0) (ha : 0 < absl) (ht : 0 < twoPi) :
+    |((fnOf absl twoPi : ℚ) : ℝ) - fxMap dt q 0|
+      ≤ (|(absl : ℝ) - ‖Unc.lamC dt q‖| + |fxMap dt q 0| * |2 * Real.pi - twoPi|) / twoPi ∧
+    |100 * ((xiOf lamc absl : ℚ) : ℝ) - fxMap dt q 1|
+      ≤ (100 * |(lamc.re : ℝ) - (Unc.lamC dt q).re| + |fxMap dt q 1| * |‖Unc.lamC dt q‖ - absl|) / absl := by
+  have ha' : (0 : ℝ) < absl := by exact_mod_cast ha
+  have ht' : (0 : ℝ) < twoPi := by exact_mod_cast ht
+  have hn : ‖Unc.lamC dt q‖ ≠ 0 := norm_ne_zero_iff.mpr hμ
+  have hpi : (2 * Real.pi) ≠ 0 := by positivity
+  constructor
+  · have e : ((fnOf absl twoPi : ℚ) : ℝ) - fxMap dt q 0
+        = (((absl : ℝ) - ‖Unc.lamC dt q‖) + fxMap dt q 0 * (2 * Real.pi - twoPi)) / twoPi := by
+      rw [FreeVib.fnOf_cast]
+      show (absl : ℝ) / twoPi - ‖Unc.lamC dt q‖ / (2 * Real.pi) = _
+      rw [ratio_diff _ _ _ _ ht'.ne' hpi]
+      rfl
+    rw [e, abs_div, abs_of_pos ht']
+    apply div_le_div_of_nonneg_right _ ht'.le
+    calc _ ≤ |(absl : ℝ) - ‖Unc.lamC dt q‖| + |fxMap dt q 0 * (2 * Real.pi - twoPi)| := abs_add_le _ _
+      _ = _ := by rw [abs_mul]
+  · have e : 100 * ((xiOf lamc absl : ℚ) : ℝ) - fxMap dt q 1
+        = -((100 * ((lamc.re : ℝ) - (Unc.lamC dt q).re)
+            + -(fxMap dt q 1) * (‖Unc.lamC dt q‖ - absl)) / absl) := by
+      have hx : ((xiOf lamc absl : ℚ) : ℝ) = -((lamc.re : ℝ) / absl) := by simp [xiOf]
+      rw [hx]
+      show 100 * -((lamc.re : ℝ) / absl) - 100 * -((Unc.lamC dt q).re / ‖Unc.lamC dt q‖) = _
+      have := ratio_diff (lamc.re : ℝ) (Unc.lamC dt q).re absl ‖Unc.lamC dt q‖ ha'.ne' hn
+      have e1 : fxMap dt q 1 = 100 * -((Unc.lamC dt q).re / ‖Unc.lamC dt q‖) := rfl
+      rw [e1]
+      linear_combination (-100) * this
+    rw [e, abs_neg, abs_div, abs_of_pos ha']
+    apply div_le_div_of_nonneg_right _ ha'.le
+    calc _ ≤ |100 * ((lamc.re : ℝ) - (Unc.lamC dt q).re)| + |-(fxMap dt q 1) * (‖Unc.lamC dt q‖ - absl)| :=
+          abs_add_le _ _
+      _ = _ := by rw [abs_mul, abs_mul, abs_neg]; simp
+
+/-! ## 6. Existence of the first-order identification (simple eigenvalue) -/
+
+section Exists
+open Matrix TrivSqZeroExt
+variable {R K : Type} [Field R] [Inhabited R] [Field K]
+
+/-- **First-order eigen-triple of a simple eigenvalue** (what `FirstOrderIdent` assumed): over a field,
+    `A₀φ₀ = λ₀φ₀`, `χ₀ᵀA₀ = λ₀χ₀ᵀ`, `χ₀·φ₀ ≠ 0` and a one-dimensional eigenspace (given `χ₀·φ₀ ≠ 0` this is
+    algebraic multiplicity one) ⇒ for every `A₁` there are `λ₁`, `φ₁`, `χ₁` with
+    `(A₀+εA₁)(φ₀+εφ₁) = (λ₀+ελ₁)(φ₀+εφ₁)` and `(χ₀+εχ₁)ᵀ(A₀+εA₁) = (λ₀+ελ₁)(χ₀+εχ₁)ᵀ` over the dual numbers
+    (`range(A₀−λ₀) = ker(χ₀ᵀ·)` by rank–nullity, `rank(A₀−λ₀)ᵀ = rank(A₀−λ₀)`). -/
+theorem C17_eig_first_order_exists {n : Nat} (A : Matrix (Fin n) (Fin n) (DualNumber K))
+    (φ0 χ0 : Fin n → K) (l0 : K)
+    (hr : mfst A *ᵥ φ0 = l0 • φ0) (hl : χ0 ᵥ* mfst A = l0 • χ0) (hne : χ0 ⬝ᵥ φ0 ≠ 0)
+    (hs : ∀ u, mfst A *ᵥ u = l0 • u → ∃ c : K, u = c • φ0) :
+    ∃ (lam : DualNumber K) (φ χ : Fin n → DualNumber K),
+      lam.fst = l0 ∧ vfst φ = φ0 ∧ vfst χ = χ0 ∧
+      A *ᵥ φ = lam • φ ∧ χ ᵥ* A = lam • χ ∧ (χ ⬝ᵥ φ).fst ≠ 0 :=
+  eig_first_order_exists A φ0 χ0 l0 hr hl hne hs
+
+/-- **`FirstOrderIdent` holds for EVERY perturbation direction, from value-level contracts only.**
+    If the recorded factors satisfy their exactness contracts — exact singular triples `b < n` with unit
+    vectors, `Ki` the exact inverse of eq. 28, `rs = 1/√σ`, `sq = √σ` (`SvExact`), `OO` the exact inverse of
+    `O↑ₙᵀO↑ₙ` — and `(lam0, phi, chi)` is an exact eigen-triple of `A₀ = OO·O↑ₙᵀ·O↓ₙ` with `χ·φ ≠ 0` whose
+    eigenspace is one-dimensional (a SIMPLE eigenvalue), then for every `ΔH` of the shape of `H` and every
+    factor `T` whose column `k` is `vec_c(ΔH)` a first-order identification exists, with
+    `λ̃ = lam0 + ε·(…)`.  So the hypothesis `hid` of `C17_variance_is_sum_of_squares`,
+    `C17_table_variance`, `C17_fncov_of_factor` is implied by the value-level contracts plus
+    simplicity of the eigenvalue.  Stronger than the property's premise: simplicity (the code divides by
+    `χ·φ`, which vanishes for a defective eigenvalue) and exactness of the LAPACK records. -/
+theorem C17_first_order_ident_exists (ι : R →+* K) (H dH T U V : Mat R) (l r p N n : Nat)
+    (sq sig rs : Nat → R) (Ki : Nat → Mat R) (OO : Mat R) (phi chi : Nat → K) (lam0 : K) (k : Nat)
+    (hk : k < T.c) (hcol : ∀ m, m < dH.c * dH.r → T.e m k = vecC dH m)
+    (hdr : dH.r = H.r) (hdc : dH.c = H.c)
+    (hr : H.r = (p + 1) * l) (hc : H.c = (p + 1) * r) (h0 : 0 < H.c) (h2 : (2 : R) ≠ 0)
+    (hn : n ≤ N) (hUr : U.r = H.r)
+    (hsv : ∀ b, b < n → SvExact H (Ki b) (Unc.col U b) (Unc.col V b) (sig b) (rs b) (sq b))
+    (hOc : OO.c = n) (hOO : toMx n n OO.e * toMx n n (ooArg (obsOf U sq N) l n).e = 1)
+    (hr' : ((toMx n n OO.e * ((toMx (p * l) n (upPart (obsOf U sq N) l).e)ᵀ
+              * toMx (p * l) n (dnPart (obsOf U sq N) l).e)).map ι) *ᵥ (fun j : Fin n => phi j.1)
+            = lam0 • fun j : Fin n => phi j.1)
+    (hl' : (fun j : Fin n => chi j.1) ᵥ* ((toMx n n OO.e * ((toMx (p * l) n
+              (upPart (obsOf U sq N) l).e)ᵀ * toMx (p * l) n (dnPart (obsOf U sq N) l).e)).map ι)
+            = lam0 • fun j : Fin n => chi j.1)
+    (hne : (fun j : Fin n => chi j.1) ⬝ᵥ (fun j : Fin n => phi j.1) ≠ 0)
+    (hsimple : ∀ u : Fin n → K,
+      ((toMx n n OO.e * ((toMx (p * l) n (upPart (obsOf U sq N) l).e)ᵀ
+              * toMx (p * l) n (dnPart (obsOf U sq N) l).e)).map ι) *ᵥ u = lam0 • u →
+      ∃ c : K, u = c • fun j : Fin n => phi j.1) :
+    ∃ lam : DualNumber K,
+      FirstOrderIdent ι H dH T U V l r p N n sq sig rs Ki OO phi chi k lam ∧ lam.fst = lam0 := by
+  obtain ⟨dr, dc, de⟩ := dH
+  simp only at hdr hdc
+  subst hdr hdc
+  -- bridged matrices and the closed-form first-order singular triples
+  set Hm : Matrix (Fin H.r) (Fin H.c) R := toMx H.r H.c H.e with hHm
+  set dHm : Matrix (Fin H.r) (Fin H.c) R := toMx H.r H.c de with hdHm
+  set lst : Fin H.c := lastIx H.c h0 with hlst
+  let ub : Nat → Fin H.r → R := fun b i => Unc.col U b i.1
+  let vb : Nat → Fin H.c → R := fun b j => Unc.col V b j.1
+  let Kim : Nat → Matrix (Fin H.c) (Fin H.c) R := fun b => toMx H.c H.c (Ki b).e
+  let ud0 : Nat → Fin H.r → DualNumber R := fun b =>
+    dvec (ub b) (svDu Hm (ub b) (vb b) (sig b) lst (Kim b) dHm)
+  let vd0 : Nat → Fin H.c → DualNumber R := fun b =>
+    dvec (vb b) (svDv Hm (ub b) (vb b) (sig b) lst (Kim b) dHm)
+  let dσ : Nat → R := fun b => svDsig (ub b) (vb b) dHm
+  let ud : Nat → Nat → DualNumber R := fun b i => if h : i < H.r then ud0 b ⟨i, h⟩ else 0
+  let vd : Nat → Nat → DualNumber R := fun b j => if h : j < H.c then vd0 b ⟨j, h⟩ else 0
+  let sd : Nat → DualNumber R := fun b => inl (sig b) + inr (dσ b)
+  let s : Nat → DualNumber R := fun b => inl (sq b) + inr (dσ b / (2 * sq b))
+  have eu : ∀ b, (fun i : Fin H.r => ud b i.1) = ud0 b := by
+    intro b; funext i; exact dif_pos i.2
+  have ev : ∀ b, (fun j : Fin H.c => vd b j.1) = vd0 b := by
+    intro b; funext j; exact dif_pos j.2
+  have hsvd : ∀ b, b < n → SvFirstOrder H ⟨H.r, H.c, de⟩ (Ki b) (Unc.col U b) (Unc.col V b) (sig b)
+      (rs b) (ud b) (vd b) (sd b) (s b) := by
+    intro b hb
+    have hx := hsv b hb
+    have hσ : sig b ≠ 0 := by
+      intro h; have := hx.rs_sq; rw [h, mul_zero] at this; exact zero_ne_one this
+    have hsq0 : sq b ≠ 0 := by
+      intro h; have := hx.sq_rs; rw [h, zero_mul] at this; exact zero_ne_one this
+    have hsqsq : sq b * sq b = sig b := by
+      have h1 : sq b * sq b * (rs b * rs b * sig b) = sig b := by
+        have : sq b * sq b * (rs b * rs b * sig b) = (sq b * rs b) * (sq b * rs b) * sig b := by ring
+        rw [this, hx.sq_rs]; ring
+      rwa [hx.rs_sq, mul_one] at h1
+    have hK := hx.ki_inv
+    rw [C17_kiArg_bridge H H.c (Unc.col V b) (sig b) rfl h0] at hK
+    obtain ⟨a1, a2, a3, a4⟩ := C17_sv_sens_exists Hm dHm (ub b) (vb b) (sig b) lst (Kim b) hσ hx.Hv
+      hx.uH hx.uu hx.vv hK
+    refine ⟨hx.rs_sq, hx.ki_cols, hx.ki_inv, ?_, ?_, by simp [sd], ?_, ?_, ?_, ?_, ?_, by simpa [s] using hx.sq_rs⟩
+    · intro i hi
+      have hi' : i < H.r := hi
+      show (if h : i < H.r then ud0 b ⟨i, h⟩ else 0).fst = _
+      rw [dif_pos hi']
+      simp [ud0, dvec, ub]
+    · intro j hj
+      have hj' : j < H.c := hj
+      show (if h : j < H.c then vd0 b ⟨j, h⟩ else 0).fst = _
+      rw [dif_pos hj']
+      simp [vd0, dvec, vb]
+    · show dmat Hm dHm *ᵥ (fun j : Fin H.c => vd b j.1) = sd b • fun i : Fin H.r => ud b i.1
+      rw [eu, ev]; exact a1
+    · show (fun i : Fin H.r => ud b i.1) ᵥ* dmat Hm dHm = sd b • fun j : Fin H.c => vd b j.1
+      rw [eu, ev]; exact a2
+    · show (fun i : Fin H.r => ud b i.1) ⬝ᵥ (fun i : Fin H.r => ud b i.1) = 1
+      rw [eu]; exact a3
+    · show (fun j : Fin H.c => vd b j.1) ⬝ᵥ (fun j : Fin H.c => vd b j.1) = 1
+      rw [ev]; exact a4
+    · apply TrivSqZeroExt.ext
+      · simpa [s, sd] using hsqsq
+      · simp [s, sd]
+        field_simp
+        ring
+  have hsq : ∀ b, b < n → (s b).fst = sq b := fun b _ => by simp [s]
+  have hu : ∀ b, b < n → ∀ i, i < H.r → (ud b i).fst = Unc.col U b i :=
+    fun b hb i hi => (hsvd b hb).u_fst i hi
+  obtain ⟨W, hW, hW0⟩ := C17_first_order_inverse_exists ι (⟨H.r, H.c, de⟩ : Mat R) U l p N n sq hr hUr
+    ud s hu hsq OO hOO
+  set A := W * ((dlift ι (obsD 0 (p * l) n s ud))ᵀ * dlift ι (obsD l (p * l) n s ud)) with hA
+  have hpl : p * l + l = H.r := by rw [hr]; ring
+  have hup : toMx (p * l) n (upPart (obsOf U sq N) l).e = mfst (obsD 0 (p * l) n s ud) := by
+    ext t b
+    have ht : 0 + t.1 < H.r := by have := t.2; omega
+    simp only [toMx, upPart, rowSlice, obsOf, mfst, Matrix.map_apply, obsD, fst_mul, hu b.1 b.2 _ ht,
+      hsq b.1 b.2, Unc.col]
+    ring
+  have hdn : toMx (p * l) n (dnPart (obsOf U sq N) l).e = mfst (obsD l (p * l) n s ud) := by
+    ext t b
+    have ht : l + t.1 < H.r := by have := t.2; omega
+    simp only [toMx, dnPart, rowSlice, obsOf, mfst, Matrix.map_apply, obsD, fst_mul, hu b.1 b.2 _ ht,
+      hsq b.1 b.2, Unc.col]
+    ring
+  have hA0 : mfst A = (toMx n n OO.e * ((toMx (p * l) n (upPart (obsOf U sq N) l).e)ᵀ
+      * toMx (p * l) n (dnPart (obsOf U sq N) l).e)).map ι := by
+    rw [hA, mfst_mul, mfst_mul, mfst_transpose, mfst_dlift, mfst_dlift, hW0, hup, hdn, Matrix.map_mul,
+      Matrix.map_mul, Matrix.transpose_map]
+  rw [← hA0] at hr' hl' hsimple
+  obtain ⟨lam, φ, χ, hlam, hφ, hχ, hev, hlv, hne'⟩ :=
+    eig_first_order_exists A (fun j : Fin n => phi j.1) (fun j : Fin n => chi j.1) lam0 hr' hl' hne
+      hsimple
+  refine ⟨lam, ⟨hk, hcol, rfl, rfl, hr, hc, h0, h2, hn, hUr, hOc, hOO, ud, vd, sd, s, W, A, φ, χ, hsvd, hsq,
+    fun j => congrFun hφ j, fun j => congrFun hχ j, hW, hA, hev, hlv, hne'⟩, hlam⟩
+
+end Exists
+
+/-! ## 7. The composed statement from value-level contracts only -/
+
+section Exact
+open Matrix TrivSqZeroExt
+
+/-- **`Fn_cov[jj, ii]` of the factor of `build_hank` is `Σ_k (D fn · ε_k λ)²` — no first-order object assumed.**
+    `T` the factor `covFactor` builds from `Yf`, `Yp` (`H = Yf·Ypᵀ`, `ΔH_k = (H_k − H)·s`); tables from the
+    model of `SSI_poles` on the model's `Q1..Q3` of `SSI_fast`.  If the recorded factors are exact
+    (`SvExact` for the singular triples `b < ii`, `OO` the inverse of `O↑ᵀO↑` at order `ii`, `lam_c`, `np.abs`
+    exact) and the `jj`-th recorded eigen-triple of order `ii` is an exact eigen-triple of
+    `A₀ = OO·O↑ᵀ·O↓` for a SIMPLE eigenvalue off the branch cut of `log` (`log λ ≠ 0`), then for every block
+    `k < nb` a first-order identification of `H + ε·ΔH_k` exists, its eigenvalue is `lam_d[jj] + ε·ε_k(λ)`,
+    and the stored variance is the sum over the blocks of the squared derivative of `fn` along `ε_k(λ)`. -/
+theorem C17_fncov_of_factor_exact (dt : ℝ) (Yf Yp : Mat ℝ) (nb N : Nat) (s : ℝ) (T U V : Mat ℝ)
+    (hT : covFactor Yf Yp nb N s = .ok T) (l r p ordmax : Nat)
+    (hYf : Yf.r = (p + 1) * l) (hYp : Yp.r = (p + 1) * r) (hr0 : 0 < Yp.r) (hUr : U.r = Yf.r)
+    (sq sig rs : Nat → ℝ) (Ki : Nat → Mat ℝ) (recs : Nat → OrderRec ℝ ℂ) (t : CovTabs ℝ)
+    (hnp : ∀ ii, 1 ≤ ii → ii ≤ ordmax → (recs ii).np ≤ ordmax)
+    (ii jj : Nat) (h1 : 1 ≤ ii) (h2 : ii ≤ ordmax) (hj : jj < (recs ii).np)
+    (hlc : (recs ii).lamc jj = lamC dt ![((recs ii).lamd jj).re, ((recs ii).lamd jj).im])
+    (habsd : (recs ii).absd jj = ‖(recs ii).lamd jj‖)
+    (habsc : (recs ii).absc jj = ‖(recs ii).lamc jj‖)
+    (hsv : ∀ b, b < ii → SvExact (mulT Yf Yp) (Ki b) (Unc.col U b) (Unc.col V b) (sig b) (rs b) (sq b))
+    (hOc : (recs ii).oo.c = ii)
+    (hOO : toMx ii ii (recs ii).oo.e * toMx ii ii (ooArg (obsOf U sq ordmax) l ii).e = 1)
+    (hr' : ((toMx ii ii (recs ii).oo.e * ((toMx (p * l) ii (upPart (obsOf U sq ordmax) l).e)ᵀ
+              * toMx (p * l) ii (dnPart (obsOf U sq ordmax) l).e)).map Complex.ofRealHom)
+            *ᵥ (fun m : Fin ii => Unc.col (recs ii).rv jj m.1)
+          = (recs ii).lamd jj • fun m : Fin ii => Unc.col (recs ii).rv jj m.1)
+    (hl' : (fun m : Fin ii => (starRingEnd ℂ) ((recs ii).lv.e m.1 jj)) ᵥ*
+            ((toMx ii ii (recs ii).oo.e * ((toMx (p * l) ii (upPart (obsOf U sq ordmax) l).e)ᵀ
+              * toMx (p * l) ii (dnPart (obsOf U sq ordmax) l).e)).map Complex.ofRealHom)
+          = (recs ii).lamd jj • fun m : Fin ii => (starRingEnd ℂ) ((recs ii).lv.e m.1 jj))
+    (hne : (fun m : Fin ii => (starRingEnd ℂ) ((recs ii).lv.e m.1 jj))
+            ⬝ᵥ (fun m : Fin ii => Unc.col (recs ii).rv jj m.1) ≠ 0)
+    (hsimple : ∀ u : Fin ii → ℂ,
+      ((toMx ii ii (recs ii).oo.e * ((toMx (p * l) ii (upPart (obsOf U sq ordmax) l).e)ᵀ
+              * toMx (p * l) ii (dnPart (obsOf U sq ordmax) l).e)).map Complex.ofRealHom) *ᵥ u
+          = (recs ii).lamd jj • u →
+      ∃ c : ℂ, u = c • fun m : Fin ii => Unc.col (recs ii).rv jj m.1)
+    (hs : (recs ii).lamd jj ∈ Complex.slitPlane)
+    (hμ : lamC dt ![((recs ii).lamd jj).re, ((recs ii).lamd jj).im] ≠ 0) :
+    let Obs := obsOf U sq ordmax
+    let Q := q1234 (mulT Yf Yp) T (upPart Obs l) (dnPart Obs l) l r p ordmax U V sig rs Ki
+    covTables Complex.ofRealHom Complex.re Complex.im (starRingEnd ℂ) (fun x : ℝ => |x|) Real.pi dt
+        ordmax Q.1 Q.2.1 Q.2.2.1 recs = some t →
+    ∃ lam : Nat → DualNumber ℂ,
+      (∀ k, k < nb → FirstOrderIdent Complex.ofRealHom (mulT Yf Yp) (devMat Yf Yp N nb s k) T U V l r p
+          ordmax ii sq sig rs Ki (recs ii).oo (Unc.col (recs ii).rv jj)
+          (fun m => (starRingEnd ℂ) ((recs ii).lv.e m jj)) k (lam k) ∧
+        (lam k).fst = (recs ii).lamd jj) ∧
+      t.fn jj ii = some (∑ k ∈ range nb,
+        (fderiv ℝ (fxMap dt) ![((recs ii).lamd jj).re, ((recs ii).lamd jj).im]
+          ![(lam k).snd.re, (lam k).snd.im] 0) ^ 2) := by
+  intro Obs Q ht
+  have hc : T.c = nb := (C17_factor_shape Yf Yp nb N s T hT).2
+  have hex : ∀ k, k < nb → ∃ lam : DualNumber ℂ,
+      FirstOrderIdent Complex.ofRealHom (mulT Yf Yp) (devMat Yf Yp N nb s k) T U V l r p ordmax ii sq sig rs
+        Ki (recs ii).oo (Unc.col (recs ii).rv jj) (fun m => (starRingEnd ℂ) ((recs ii).lv.e m jj)) k lam ∧
+      lam.fst = (recs ii).lamd jj := fun k hk =>
+    C17_first_order_ident_exists Complex.ofRealHom (mulT Yf Yp) (devMat Yf Yp N nb s k) T U V l r p ordmax
+      ii sq sig rs Ki (recs ii).oo _ _ ((recs ii).lamd jj) k (hc ▸ hk)
+      (fun m _ => C17_factor_column_is_vec Yf Yp nb N s T hT k m) rfl rfl hYf hYp hr0 two_ne_zero h2 hUr
+      hsv hOc hOO hr' hl' hne hsimple
+  choose lam hlam using hex
+  refine ⟨fun k => if h : k < nb then lam k h else 0, fun k hk => ?_, ?_⟩
+  · simp only [dif_pos hk]
+    exact hlam k hk
+  · have := C17_table_variance dt (mulT Yf Yp) T U V (fun k => devMat Yf Yp N nb s k) l r p ordmax sq sig
+      rs Ki recs t hnp ii jj h1 h2 hj hlc habsd habsc (fun k => if h : k < nb then lam k h else 0)
+      (fun k hk => by
+        have hk' : k < nb := hc ▸ hk
+        simp only [dif_pos hk']
+        exact (hlam k hk').1)
+      (fun k hk => by
+        have hk' : k < nb := hc ▸ hk
+        simp only [dif_pos hk']
+        exact (hlam k hk').2) hs hμ ht
+    rw [this, hc]
+
+/-- **The same through `build_hank`**: `(H, T) = build_hank(Y, Yref, br = p, "cov_mm", calc_unc=True, nb)` as the
+    model `buildHankUnc` computes them; `l = Y.shape[0]`, `r = Yref.shape[0] ≥ 1`.  All shape contracts hold by
+    construction; what is assumed is exactness of the recorded factors and simplicity of the eigenvalue. -/
+theorem C17_fncov_of_build_hank_exact (dt : ℝ) (Y Yref : Mat ℝ) (p nb : Nat) (s0 s : ℝ) (H T U V : Mat ℝ)
+    (hB : buildHankUnc Y Yref p nb s0 s = (H, .ok T)) (hr0 : 0 < Yref.r) (ordmax : Nat)
+    (hUr : U.r = (p + 1) * Y.r)
+    (sq sig rs : Nat → ℝ) (Ki : Nat → Mat ℝ) (recs : Nat → OrderRec ℝ ℂ) (t : CovTabs ℝ)
+    (hnp : ∀ ii, 1 ≤ ii → ii ≤ ordmax → (recs ii).np ≤ ordmax)
+    (ii jj : Nat) (h1 : 1 ≤ ii) (h2 : ii ≤ ordmax) (hj : jj < (recs ii).np)
+    (hlc : (recs ii).lamc jj = lamC dt ![((recs ii).lamd jj).re, ((recs ii).lamd jj).im])
+    (habsd : (recs ii).absd jj = ‖(recs ii).lamd jj‖)
+    (habsc : (recs ii).absc jj = ‖(recs ii).lamc jj‖)
+    (hsv : ∀ b, b < ii → SvExact H (Ki b) (Unc.col U b) (Unc.col V b) (sig b) (rs b) (sq b))
+    (hOc : (recs ii).oo.c = ii)
+    (hOO : toMx ii ii (recs ii).oo.e * toMx ii ii (ooArg (obsOf U sq ordmax) Y.r ii).e = 1)
+    (hr' : ((toMx ii ii (recs ii).oo.e * ((toMx (p * Y.r) ii (upPart (obsOf U sq ordmax) Y.r).e)ᵀ
+              * toMx (p * Y.r) ii (dnPart (obsOf U sq ordmax) Y.r).e)).map Complex.ofRealHom)
+            *ᵥ (fun m : Fin ii => Unc.col (recs ii).rv jj m.1)
+          = (recs ii).lamd jj • fun m : Fin ii => Unc.col (recs ii).rv jj m.1)
+    (hl' : (fun m : Fin ii => (starRingEnd ℂ) ((recs ii).lv.e m.1 jj)) ᵥ*
+            ((toMx ii ii (recs ii).oo.e * ((toMx (p * Y.r) ii (upPart (obsOf U sq ordmax) Y.r).e)ᵀ
+              * toMx (p * Y.r) ii (dnPart (obsOf U sq ordmax) Y.r).e)).map Complex.ofRealHom)
+          = (recs ii).lamd jj • fun m : Fin ii => (starRingEnd ℂ) ((recs ii).lv.e m.1 jj))
+    (hne : (fun m : Fin ii => (starRingEnd ℂ) ((recs ii).lv.e m.1 jj))
+            ⬝ᵥ (fun m : Fin ii => Unc.col (recs ii).rv jj m.1) ≠ 0)
+    (hsimple : ∀ u : Fin ii → ℂ,
+      ((toMx ii ii (recs ii).oo.e * ((toMx (p * Y.r) ii (upPart (obsOf U sq ordmax) Y.r).e)ᵀ
+              * toMx (p * Y.r) ii (dnPart (obsOf U sq ordmax) Y.r).e)).map Complex.ofRealHom) *ᵥ u
+          = (recs ii).lamd jj • u →
+      ∃ c : ℂ, u = c • fun m : Fin ii => Unc.col (recs ii).rv jj m.1)
+    (hs : (recs ii).lamd jj ∈ Complex.slitPlane)
+    (hμ : lamC dt ![((recs ii).lamd jj).re, ((recs ii).lamd jj).im] ≠ 0) :
+    let Obs := obsOf U sq ordmax
+    let Q := q1234 H T (upPart Obs Y.r) (dnPart Obs Y.r) Y.r Yref.r p ordmax U V sig rs Ki
+    covTables Complex.ofRealHom Complex.re Complex.im (starRingEnd ℂ) (fun x : ℝ => |x|) Real.pi dt
+        ordmax Q.1 Q.2.1 Q.2.2.1 recs = some t →
+    ∃ lam : Nat → DualNumber ℂ,
+      (∀ k, k < nb → (lam k).fst = (recs ii).lamd jj) ∧
+      t.fn jj ii = some (∑ k ∈ range nb,
+        (fderiv ℝ (fxMap dt) ![((recs ii).lamd jj).re, ((recs ii).lamd jj).im]
+          ![(lam k).snd.re, (lam k).snd.im] 0) ^ 2) := by
+  unfold buildHankUnc at hB
+  obtain ⟨rfl, hT⟩ := Prod.mk.inj hB
+  intro Obs Q ht
+  obtain ⟨lam, a, b⟩ := C17_fncov_of_factor_exact dt (hankYf Y p s0) (hankYp Y.c Yref p s0) nb
+    (Y.c - p - (p + 1)) s T U V hT Y.r Yref.r p ordmax rfl rfl (Nat.mul_pos (Nat.succ_pos p) hr0) hUr sq sig
+    rs Ki recs t hnp ii jj h1 h2 hj hlc habsd habsc hsv hOc hOO hr' hl' hne hsimple hs hμ ht
+  exact ⟨lam, fun k hk => (a k hk).2, b⟩
+
+end Exact
+
+/-! ## Non-vacuity -/
+
+namespace ExTab
+open PV.C17.ExScale
+
+/-- `Q1..Q3` of the order-2 instance `ExScale` (two channels, one block row) -/
+def Q : Mat ℚ × Mat ℚ × Mat ℚ × Mat ℚ :=
+  q1234 H T (upPart (obsOf U sq 2) 2) (dnPart (obsOf U sq 2) 2) 2 1 1 2 U V sig rs Ki
+/-- arbitrary per-order records with `len(lam_c) = ii` -/
+def recs : Nat → OrderRec ℚ ℚ := fun ii =>
+  ⟨ii, fun j => 1 + j, fun j => 1 / 2 + j, fun _ => 2, fun _ => 3, ⟨2, 2, fun i j => 1 + i + 2 * j⟩,
+    ⟨2, 2, fun i j => 1 + 2 * i + j⟩, ⟨ii, ii, OO.e⟩⟩
+
+/-- `C17_table_cells` on `ordmax = 2`: the hypothesis holds (`len(lam_c) = ii ≤ 2`), the run succeeds, the three
+    written cells `(0,1)`, `(0,2)`, `(1,2)` hold three different non-zero values, column 0 and cell `(1,1)`
+    are NaN (`absR := id`, `im := x/3`: the theorem is for arbitrary `abs`, `real`, `imag`). -/
+example : ∃ t, covTables (K := ℚ) id id (fun x => x / 3) id id 3 (1 / 100) 2 Q.1 Q.2.1 Q.2.2.1 recs
+      = some t ∧
+    t.fn 0 1 = some (390625 / 944784) ∧ t.fn 0 2 = some (15625 / 11573604) ∧
+    t.fn 1 2 = some (15625 / 729) ∧ t.fn 0 0 = none ∧ t.fn 1 0 = none ∧ t.fn 1 1 = none ∧
+    t.xi 1 1 = none ∧ t.xi 1 2 = some (-1562500 / 6561) := by
+  have hnp : ∀ ii, 1 ≤ ii → ii ≤ 2 → (recs ii).np ≤ 2 := fun ii _ h => h
+  obtain ⟨t, h, hfn, hxi⟩ := C17_table_cells (K := ℚ) id id (fun x => x / 3) id id 3 (1 / 100) 2
+    Q.1 Q.2.1 Q.2.2.1 recs hnp
+  refine ⟨t, h, ?_, ?_, ?_, ?_, ?_, ?_, ?_, ?_⟩
+  · rw [hfn]; decide +kernel
+  · rw [hfn]; decide +kernel
+  · rw [hfn]; decide +kernel
+  · rw [hfn]; decide +kernel
+  · rw [hfn]; decide +kernel
+  · rw [hfn]; decide +kernel
+  · rw [hxi]; decide +kernel
+  · rw [hxi]; decide +kernel
+
+/-- `C17_table_index_error`: an order-1 record claiming two poles with `ordmax = 1`. -/
+example : covTables (K := ℚ) id id (fun x => x / 3) id id 3 (1 / 100) 1 Q.1 Q.2.1 Q.2.2.1
+    (fun _ => recs 2) = none :=
+  C17_table_index_error _ _ _ _ _ _ _ 1 _ _ _ _ (le_refl 1) (by decide)
+
+end ExTab
+
+/-! ### existence of the first-order identification: order 2, arbitrary direction (over `ℚ`) -/
+
+namespace ExTab
+open PV.C17.ExScale Matrix TrivSqZeroExt
+
+/-- **`C17_first_order_ident_exists` at order `n = 2`, for EVERY direction `ΔH`** (the instance `ExScale`: two
+    channels, exact rational SVD, `A₀ = [[1/3, 1/3], [2/3, 2/3]]` with the simple eigenvalue `1`,
+    `φ = (1, 2)`, `χ = (1, 1)`): all hypotheses hold jointly, so `FirstOrderIdent` — so far exhibited at order
+    1 and along `ΔH = H` only — is satisfiable for arbitrary entries `f` of `ΔH`. -/
+theorem ident2_any (f : Nat → Nat → ℚ) :
+    ∃ lam : DualNumber ℚ,
+      FirstOrderIdent (RingHom.id ℚ) H ⟨4, 2, f⟩ ⟨8, 1, fun m _ => vecC (⟨4, 2, f⟩ : Mat ℚ) m⟩ U V 2 1 1 2 2
+        sq sig rs Ki OO phi chi 0 lam ∧ lam.fst = 1 := by
+  have hA : ((toMx 2 2 OO.e * ((toMx (1 * 2) 2 (upPart (obsOf U sq 2) 2).e)ᵀ
+      * toMx (1 * 2) 2 (dnPart (obsOf U sq 2) 2).e)).map (RingHom.id ℚ))
+      = !![1 / 3, 1 / 3; 2 / 3, 2 / 3] := by decide +kernel
+  refine C17_first_order_ident_exists (RingHom.id ℚ) H ⟨4, 2, f⟩ _ U V 2 1 1 2 2 sq sig rs Ki OO phi chi 1 0
+    Nat.one_pos (fun m _ => rfl) rfl rfl rfl rfl Nat.two_pos two_ne_zero (le_refl 2) rfl svExact rfl
+    (by decide +kernel) (by decide +kernel) (by decide +kernel) (by decide +kernel) ?_
+  intro u hu
+  rw [hA] at hu
+  have h0 := congrFun hu 0
+  simp [Matrix.mulVec, dotProduct, Fin.sum_univ_two] at h0
+  refine ⟨u 0, ?_⟩
+  funext j
+  fin_cases j
+  · simp [phi]
+  · simp [phi]; linarith
+
+/-- … and on the generic direction `ΔH[i, j] = i + 2j + 1` the first-order eigenvalue perturbation is a
+    non-zero number, equal to the model's `JaohT[0]` (`C17_lambda_first_order_bundled`). -/
+example : ∃ lam : DualNumber ℚ,
+    FirstOrderIdent (RingHom.id ℚ) H ⟨4, 2, fun i j => (i + 2 * j + 1 : ℕ)⟩
+      ⟨8, 1, fun m _ => vecC (⟨4, 2, fun i j => ((i + 2 * j + 1 : ℕ) : ℚ)⟩ : Mat ℚ) m⟩ U V 2 1 1 2 2
+      sq sig rs Ki OO phi chi 0 lam ∧ lam.fst = 1 ∧ lam.snd ≠ 0 := by
+  obtain ⟨lam, h, h0⟩ := ident2_any (fun i j => ((i + 2 * j + 1 : ℕ) : ℚ))
+  refine ⟨lam, h, h0, ?_⟩
+  have := C17_lambda_first_order_bundled _ _ _ _ _ _ _ _ _ _ _ _ _ _ _ _ _ _ _ _ h
+  simp only [h0] at this
+  rw [← this]
+  decide +kernel
+
+end ExTab
+
+/-! ### the composed statement over `ℝ`/`ℂ`: factor of `covFactor`, table, exact contracts (order 1) -/
+
+namespace ExReal
+open Matrix TrivSqZeroExt
+
+/-- stacked data with `Yf·Ypᵀ = ExVec.H` (one channel, one block row): `Yf = H`, `Yp = I`; two columns,
+    `N = 3`, `nb = 2` blocks of `Nb = 1` column. -/
+noncomputable def Yf : Mat ℝ := ExVec.H ℝ
+noncomputable def Yp : Mat ℝ := ⟨2, 2, fun i j => if i = j then 1 else 0⟩
+noncomputable def recs (dt : ℝ) : Nat → OrderRec ℝ ℂ := fun _ =>
+  ⟨1, fun _ => 4 / 3, fun _ => lamC dt ![(4 / 3 : ℂ).re, (4 / 3 : ℂ).im], fun _ => ‖(4 / 3 : ℂ)‖,
+    fun _ => ‖lamC dt ![(4 / 3 : ℂ).re, (4 / 3 : ℂ).im]‖, ⟨1, 1, fun _ _ => 1⟩, ⟨1, 1, fun _ _ => 1⟩,
+    ExVec.OO ℝ⟩
+
+theorem hH : toMx 2 2 (mulT Yf Yp).e = toMx 2 2 (ExVec.H ℝ).e := by
+  ext i j
+  fin_cases i <;> fin_cases j <;>
+    simp [toMx, mulT, Yf, Yp, sumTo_eq, ExVec.H]
+
+theorem svExact : SvExact (mulT Yf Yp) (ExVec.Ki ℝ) (Unc.col (ExVec.U ℝ) 0) (Unc.col (ExVec.U ℝ) 0) 4
+    (1 / 2) 2 := by
+  obtain ⟨h1, h2, h3⟩ := ExVec.sv_value (R := ℝ)
+  have hK := ExVec.ki_inv (R := ℝ)
+  rw [C17_kiArg_bridge (ExVec.H ℝ) 2 (Unc.col (ExVec.U ℝ) 0) 4 rfl (by decide)] at hK
+  refine ⟨?_, ?_, h3, h3, by norm_num, by norm_num, rfl, ?_⟩
+  · show toMx 2 2 (mulT Yf Yp).e *ᵥ _ = _
+    rw [hH]; exact h1
+  · show _ ᵥ* toMx 2 2 (mulT Yf Yp).e = _
+    rw [hH]; exact h2
+  · show toMx 2 2 (ExVec.Ki ℝ).e * toMx 2 2 (kiArg (mulT Yf Yp) 2 (Unc.col (ExVec.U ℝ) 0) 4).e = 1
+    rw [C17_kiArg_bridge (mulT Yf Yp) 2 (Unc.col (ExVec.U ℝ) 0) 4 rfl (by decide)]
+    show toMx 2 2 (ExVec.Ki ℝ).e * svKarg (toMx 2 2 (mulT Yf Yp).e) _ 4 _ = 1
+    rw [hH]; exact hK
+
+theorem hOO : toMx 1 1 (ExVec.OO ℝ).e * toMx 1 1 (ooArg (obsOf (ExVec.U ℝ) (fun _ => (2 : ℝ)) 1) 1 1).e = 1 := by
+  ext i j
+  have hi : i = 0 := Subsingleton.elim _ _
+  have hj : j = 0 := Subsingleton.elim _ _
+  subst hi hj
+  simp [toMx, ExVec.OO, ooArg, obsOf, Mat.mul, Mat.transpose, ExVec.U, sumTo, Matrix.mul_apply]
+  norm_num
+
+/-- the `1 × 1` state matrix `A₀ = OO·O↑ᵀ·O↓ = 25/36 · 6/5 · 8/5 = 4/3` -/
+theorem hA0 : ((toMx 1 1 (ExVec.OO ℝ).e * ((toMx (1 * 1) 1 (upPart (obsOf (ExVec.U ℝ) (fun _ => (2 : ℝ)) 1) 1).e)ᵀ
+      * toMx (1 * 1) 1 (dnPart (obsOf (ExVec.U ℝ) (fun _ => (2 : ℝ)) 1) 1).e)).map Complex.ofRealHom)
+    = fun _ _ => (4 / 3 : ℂ) := by
+  ext i j
+  simp [toMx, ExVec.OO, obsOf, upPart, dnPart, rowSlice, ExVec.U, Matrix.mul_apply]
+  norm_num
+
+/-- **All hypotheses of `C17_fncov_of_factor_exact` (hence of `C17_fncov_of_factor`, `C17_table_variance`,
+    `C17_first_order_ident_exists` over `ℝ`/`ℂ`) hold jointly**, with a factor that `covFactor` itself
+    builds (two blocks, `s = 1/√2`): the table cell `Fn_cov[0, 1]` of the model run is the sum over the two
+    blocks of the squared directional derivatives of `fn`. -/
+example (dt : ℝ) (hdt : dt = 1 / 100) : ∃ (T : Mat ℝ) (t : CovTabs ℝ) (lam : Nat → DualNumber ℂ),
+    covFactor Yf Yp 2 3 (1 / Real.sqrt 2) = .ok T ∧
+    covTables Complex.ofRealHom Complex.re Complex.im (starRingEnd ℂ) (fun x : ℝ => |x|) Real.pi dt 1
+      (q1234 (mulT Yf Yp) T (upPart (obsOf (ExVec.U ℝ) (fun _ => 2) 1) 1)
+        (dnPart (obsOf (ExVec.U ℝ) (fun _ => 2) 1) 1) 1 1 1 1 (ExVec.U ℝ) (ExVec.U ℝ) (fun _ => 4)
+        (fun _ => 1 / 2) (fun _ => ExVec.Ki ℝ)).1
+      (q1234 (mulT Yf Yp) T (upPart (obsOf (ExVec.U ℝ) (fun _ => 2) 1) 1)
+        (dnPart (obsOf (ExVec.U ℝ) (fun _ => 2) 1) 1) 1 1 1 1 (ExVec.U ℝ) (ExVec.U ℝ) (fun _ => 4)
+        (fun _ => 1 / 2) (fun _ => ExVec.Ki ℝ)).2.1
+      (q1234 (mulT Yf Yp) T (upPart (obsOf (ExVec.U ℝ) (fun _ => 2) 1) 1)
+        (dnPart (obsOf (ExVec.U ℝ) (fun _ => 2) 1) 1) 1 1 1 1 (ExVec.U ℝ) (ExVec.U ℝ) (fun _ => 4)
+        (fun _ => 1 / 2) (fun _ => ExVec.Ki ℝ)).2.2.1 (recs dt) = some t ∧
+    (∀ k, k < 2 → (lam k).fst = (4 / 3 : ℂ)) ∧
+    t.fn 0 1 = some (∑ k ∈ range 2,
+      (fderiv ℝ (fxMap dt) ![(4 / 3 : ℂ).re, (4 / 3 : ℂ).im] ![(lam k).snd.re, (lam k).snd.im] 0) ^ 2) := by
+  obtain ⟨T, hT⟩ : ∃ T, covFactor Yf Yp 2 3 (1 / Real.sqrt 2) = .ok T := ⟨_, rfl⟩
+  have hnp : ∀ ii, 1 ≤ ii → ii ≤ 1 → ((recs dt) ii).np ≤ 1 := fun _ _ _ => le_refl 1
+  obtain ⟨t, ht, -, -⟩ := C17_table_cells (⇑Complex.ofRealHom) Complex.re Complex.im (starRingEnd ℂ)
+    (fun x : ℝ => |x|) Real.pi dt 1
+    (q1234 (mulT Yf Yp) T (upPart (obsOf (ExVec.U ℝ) (fun _ => 2) 1) 1)
+      (dnPart (obsOf (ExVec.U ℝ) (fun _ => 2) 1) 1) 1 1 1 1 (ExVec.U ℝ) (ExVec.U ℝ) (fun _ => 4)
+      (fun _ => 1 / 2) (fun _ => ExVec.Ki ℝ)).1 _ _ (recs dt) hnp
+  have h43 : (Complex.ofRealHom (4 / 3 : ℝ)) = (4 / 3 : ℂ) := by simp
+  have hre : (4 / 3 : ℂ).re = 4 / 3 := by rw [← h43]; simp
+  have him : (4 / 3 : ℂ).im = 0 := by rw [← h43]; simp
+  have hone : (fun m : Fin 1 => (starRingEnd ℂ) (((recs dt) 1).lv.e m.1 0)) = fun _ => (1 : ℂ) := by
+    funext m; simp [recs]
+  have hphi : (fun m : Fin 1 => Unc.col ((recs dt) 1).rv 0 m.1) = fun _ => (1 : ℂ) := by
+    funext m; simp [recs, Unc.col]
+  obtain ⟨lam, h1, h2⟩ := C17_fncov_of_factor_exact dt Yf Yp 2 3 (1 / Real.sqrt 2) T (ExVec.U ℝ) (ExVec.U ℝ)
+    hT 1 1 1 1 rfl rfl Nat.two_pos rfl (fun _ => 2) (fun _ => 4) (fun _ => 1 / 2) (fun _ => ExVec.Ki ℝ)
+    (recs dt) t hnp 1 0 (le_refl 1) (le_refl 1) Nat.one_pos rfl rfl rfl
+    (fun b hb => by
+      obtain rfl : b = 0 := by omega
+      exact svExact)
+    rfl hOO
+    (by
+      rw [show ((recs dt) 1).oo = ExVec.OO ℝ from rfl, hA0, hphi]
+      ext i; simp [Matrix.mulVec, dotProduct, recs])
+    (by
+      rw [show ((recs dt) 1).oo = ExVec.OO ℝ from rfl, hA0, hone]
+      ext i; simp [Matrix.vecMul, dotProduct, recs])
+    (by rw [hone, hphi]; simp [dotProduct])
+    (by
+      intro u _
+      refine ⟨u 0, ?_⟩
+      rw [hphi]
+      funext j
+      rw [Subsingleton.elim j 0]
+      simp)
+    (by
+      show (4 / 3 : ℂ) ∈ Complex.slitPlane
+      rw [Complex.mem_slitPlane_iff]; left; rw [hre]; norm_num)
+    (by
+      show lamC dt ![(4 / 3 : ℂ).re, (4 / 3 : ℂ).im] ≠ 0
+      rw [hre, him, hdt]
+      unfold lamC
+      simp only [Matrix.cons_val_zero, Matrix.cons_val_one, Complex.ofReal_zero, zero_mul, add_zero]
+      have hpos : (0 : ℝ) < Real.log (4 / 3) := Real.log_pos (by norm_num)
+      rw [← Complex.ofReal_log (by norm_num : (0 : ℝ) ≤ 4 / 3), ← Complex.ofReal_mul]
+      exact_mod_cast (mul_pos hpos (by norm_num)).ne')
+    ht
+  exact ⟨T, t, lam, hT, ht, fun k hk => (h1 k hk).2, h2⟩
+
+/-- structural hypotheses of `C17_fncov_of_build_hank[_exact]` on a record (one channel, 6 samples, `p = 1`,
+    `nb = 2`): the model of `build_hank` returns a factor, the reference set is non-empty.  (The exactness
+    hypotheses are exhibited jointly at the `covFactor` level above: no record with a rational SVD of its
+    Hankel matrix was found.) -/
+example : ∃ H T, buildHankUnc (⟨1, 6, fun _ t => ((t * t + 1 : ℕ) : ℝ)⟩ : Mat ℝ)
+    ⟨1, 6, fun _ t => ((t * t + 1 : ℕ) : ℝ)⟩ 1 2 1 1 = (H, .ok T) ∧
+    0 < (⟨1, 6, fun _ t => ((t * t + 1 : ℕ) : ℝ)⟩ : Mat ℝ).r := ⟨_, _, rfl, Nat.one_pos⟩
+
+end ExReal
+
+/-! ### blocks and the pole map -/
+
+namespace ExBlocks
+/-- stacked data with `N − 1 = 5` columns (`N = 6`) -/
+def Yf : Mat ℚ := ⟨2, 5, fun i t => (((t + 1) * (i + 1) + t * t : ℕ) : ℚ)⟩
+def Yp : Mat ℚ := ⟨2, 5, fun j t => (((t + j) % 3 : ℕ) : ℚ) - 1⟩
+
+/-- hypotheses of `C17_block_columns`, both branches: `N = 6`, `nb = 3` (`nb ∣ N`: last block clipped to
+    `Nb − 1 = 1` column, nothing left over) and `N = 6`, `nb = 4` (`nb ∤ N`: four full blocks of one column,
+    `6 mod 4 − 1 = 1` column left over). -/
+example : (1 ≤ 3 ∧ 1 ≤ 6 / 3 ∧ 3 ∣ 6 ∧ blockCols (6 - 1) (6 / 3) (3 - 1) = (4, 5) ∧
+      leftoverCols (6 - 1) (6 / 3) 3 = (5, 5)) ∧
+    (1 ≤ 4 ∧ 1 ≤ 6 / 4 ∧ ¬ 4 ∣ 6 ∧ blockCols (6 - 1) (6 / 4) 3 = (3, 4) ∧
+      leftoverCols (6 - 1) (6 / 4) 4 = (4, 5)) := by decide
+
+/-- hypotheses of `C17_block_mean_clipped` / `C17_last_block_bias` (`Yf.c = N − 1`, `nb ∣ N`, `Nb ≠ 0`), and the
+    two conclusions on the data: the three block estimates sum to `3·H` although the last one is
+    `(Nb−1)/Nb = 1/2` of the moment estimate over its single column (`6·Yf[0,4]·Yp[1,4] = 6·21·1`, halved). -/
+example : Yf.c = 6 - 1 ∧ 3 ∣ 6 ∧ ((6 / 3 : ℕ) : ℚ) ≠ 0 ∧ 1 ≤ 3 ∧ 1 ≤ 6 / 3 ∧
+    ∑ k ∈ range 3, (blockEst Yf Yp 6 (6 / 3) k).e 0 1 = 3 * (mulT Yf Yp).e 0 1 ∧
+    (mulT Yf Yp).e 0 1 ≠ 0 ∧
+    (blockEst Yf Yp 6 (6 / 3) 2).e 0 1 = 6 * 21 * 1 / 2 := by
+  refine ⟨rfl, by decide, by norm_num, by decide, by decide, ?_, ?_, ?_⟩
+  · exact C17_block_mean_clipped Yf Yp 6 3 0 1 rfl (by decide) (by norm_num)
+  · decide +kernel
+  · decide +kernel
+
+/-- hypotheses of `C17_fxMap_fnOf_xiOf`: `lam_d = 4/3`, `dt = 1/100` (`log(4/3)·100 ≠ 0`), records
+    `absl = 28`, `twoPi = 6`. -/
+example : Unc.lamC (1 / 100) ![4 / 3, 0] ≠ 0 ∧ (0 : ℚ) < 28 ∧ (0 : ℚ) < 6 := by
+  refine ⟨?_, by norm_num, by norm_num⟩
+  unfold Unc.lamC
+  simp only [Matrix.cons_val_zero, Matrix.cons_val_one, Complex.ofReal_zero, zero_mul, add_zero]
+  have hpos : (0 : ℝ) < Real.log (4 / 3) := Real.log_pos (by norm_num)
+  rw [← Complex.ofReal_log (by norm_num : (0 : ℝ) ≤ 4 / 3), ← Complex.ofReal_mul]
+  exact_mod_cast (mul_pos hpos (by norm_num)).ne'
+
+end ExBlocks
+
+end PV.C17
